@@ -119,7 +119,54 @@ def _classes():
     class ScipyGenGammaDistribution(ScipyDistribution):  # two shape parameters (a, c)
         scipy_dist_name = "gengamma"
 
+    from virocon.distributions import Distribution
+    import scipy.stats as sts
+
+    class NormalMixtureDistribution(Distribution):
+        """A user-defined distribution (documented extension point): mixture of two normals with a common sigma."""
+
+        def __init__(self, w=0.5, mu1=0, mu2=5, sigma=1, f_w=None, f_mu1=None, f_mu2=None, f_sigma=None):
+            self.w = w if f_w is None else f_w
+            self.mu1 = mu1 if f_mu1 is None else f_mu1
+            self.mu2 = mu2 if f_mu2 is None else f_mu2
+            self.sigma = sigma if f_sigma is None else f_sigma
+            self.f_w, self.f_mu1, self.f_mu2, self.f_sigma = f_w, f_mu1, f_mu2, f_sigma
+
+        @property
+        def parameters(self):
+            return {"w": self.w, "mu1": self.mu1, "mu2": self.mu2, "sigma": self.sigma}
+
+        def _p(self, w, mu1, mu2, sigma):
+            return (self.w if w is None else w, self.mu1 if mu1 is None else mu1, self.mu2 if mu2 is None else mu2, self.sigma if sigma is None else sigma)
+
+        def cdf(self, x, w=None, mu1=None, mu2=None, sigma=None):
+            w, a, b, s_ = self._p(w, mu1, mu2, sigma)
+            return w * sts.norm.cdf(x, a, s_) + (1 - w) * sts.norm.cdf(x, b, s_)
+
+        def pdf(self, x, w=None, mu1=None, mu2=None, sigma=None):
+            w, a, b, s_ = self._p(w, mu1, mu2, sigma)
+            return w * sts.norm.pdf(x, a, s_) + (1 - w) * sts.norm.pdf(x, b, s_)
+
+        def icdf(self, prob, w=None, mu1=None, mu2=None, sigma=None):
+            w, a, b, s_ = self._p(w, mu1, mu2, sigma)
+            from vmon import refmodel as _R
+
+            return _R.icdf("normalmix", prob, w=w, mu1=a, mu2=b, sigma=s_)
+
+        def draw_sample(self, n, w=None, mu1=None, mu2=None, sigma=None, *, random_state=None):
+            w, a, b, s_ = self._p(w, mu1, mu2, sigma)
+            rng = np.random.default_rng(random_state)
+            pick = rng.random(n) < w
+            return np.where(pick, rng.normal(a, s_, n), rng.normal(b, s_, n))
+
+        def _fit_mle(self, data):
+            raise NotImplementedError()
+
+        def _fit_lsq(self, data, weights):
+            raise NotImplementedError()
+
     return {
+        "normalmix": NormalMixtureDistribution,
         "weibull": virocon.WeibullDistribution,
         "lognormal": virocon.LogNormalDistribution,
         "normal": virocon.NormalDistribution,
@@ -162,6 +209,7 @@ KIND = {
     "rayleigh": {"loc": "loc+", "scale": "pos"},
     "gumbel_r": {"loc": "loc", "scale": "pos"},
     "sc_gengamma": {"a": "pos", "c": "pos", "loc": "loc+", "scale": "pos"},
+    "normalmix": {"w": "pos", "mu1": "loc", "mu2": "loc", "sigma": "pos"},
 }
 
 # "regular" parameter ranges for model workloads (metocean-like magnitudes)
